@@ -3,6 +3,11 @@
 // Verification shim, added to package models at build time with `go build -overlay`.
 package models
 
+import (
+	"github.com/prometheus/client_golang/prometheus"
+	dto "github.com/prometheus/client_model/go"
+)
+
 // VerifTick is the body of one iteration of the frame-dispatch loop in StartDispatchFrames.
 func (s *Session) VerifTick() {
 	s.frameMutex.RLock()
@@ -29,4 +34,19 @@ func (s *SessionStore) VerifSessionIDs() []string {
 		out = append(out, k)
 	}
 	return out
+}
+
+// VerifSessionGauge returns the sum of the session_count gauge over all app-key labels.
+func VerifSessionGauge() float64 {
+	ch := make(chan prometheus.Metric, 1024)
+	hagallSessionCount.Collect(ch)
+	close(ch)
+	var sum float64
+	for m := range ch {
+		var d dto.Metric
+		if err := m.Write(&d); err == nil {
+			sum += d.GetGauge().GetValue()
+		}
+	}
+	return sum
 }
